@@ -40,9 +40,15 @@ void x_verif_map_at_missing(void) {
   cov_at_missing++;
 #ifdef __CPROVER__
   CHECK(0, "std::map::at is never asked for a missing key (every rule met at run time was inserted by visit<>, every branch by subs_t)");
+  __CPROVER_assume(0);   /* the path has failed; what the code does after the stand-in exception is not explored by the solver (it is run natively) */
 #endif
 }
-void x_verif_capacity_exceeded(void) { CHECK(0, "stand-in container capacity suffices for every run within the bounds"); }
+void x_verif_capacity_exceeded(void) {
+  CHECK(0, "stand-in container capacity suffices for every run within the bounds");
+#ifdef __CPROVER__
+  __CPROVER_assume(0);
+#endif
+}
 
 static void cov_setup(void) {
   for (unsigned i = 0; i < COV_NR * 6; ++i) cov_exp_rule[i] = 0;
